@@ -1,11 +1,181 @@
 //! Projections of a compilation used by property C20 (engine `compile`, projection names `c20:<name>`).
+//!
+//! `c20:events` — every file is walked with a recording visitor; every callback is reported as `kind:path`, type
+//! references as `typeref:path@own|@other` (does the span of the presented `TypeRef` object lie in the walked file?).
+//! Output: events of a file joined by `,`, files by `|`, then ` diags=<allcodes> oracle=ok|FAIL(<reason>)`.
+//! `c20:walk` — the same without the `diags=` part (used for programs with unresolvable references).
+//!
+//! The path of an event is NOT taken from names and NOT from the order of the callbacks: before the walk the
+//! harness indexes the file *by position* (`contents[j]` → `d<j>`, `fields()[k]` → `d<j>.f<k>`, `operations()[k]`,
+//! `parameters()[m]`, `return_members()[m]`, `enumerators()[k]`, …) keyed by the address of the element; a callback
+//! looks its argument up by address. Type references are located relative to the most recent owner (field /
+//! parameter / alias): the owner's reference is `<owner>.t`, the references nested in the type it is patched to are
+//! `.e`, `.k`/`.v`, `.s`/`.f` (the same `TypeRef` object can occur under several paths when aliases are flattened, so
+//! the table is a multimap used in order). An element the index does not know is reported as `?`.
+//!
+//! Oracle on the implementation alone: no path twice, no unknown element, every owner is directly followed by its
+//! `.t` and every `.t` directly follows its owner, and the number of events equals the number of indexed positions.
 #![allow(unused_imports, dead_code)]
 use crate::compile::*;
 use slicec::compilation_state::CompilationState;
 use slicec::grammar::*;
+use slicec::slice_file::SliceFile;
 use slicec::slice_options::SliceOptions;
+use slicec::visitor::Visitor;
+use std::collections::{HashMap, HashSet};
+
+fn addr<T: ?Sized>(x: &T) -> usize { x as *const T as *const u8 as usize }
+
+/// positions of the type references below (and including) `t`, by the harness's own descent
+fn tref_positions(t: &TypeRef, path: String, out: &mut Vec<(usize, String, bool)>, depth: usize) {
+    out.push((addr(t), path.clone(), false));
+    if depth > 200 { out.push((0, format!("{}.<cyclic>", path), false)); return; }
+    if let TypeRefDefinition::Patched(_) = &t.definition {
+        match t.concrete_type() {
+            Types::Sequence(s) => tref_positions(&s.element_type, format!("{}.e", path), out, depth + 1),
+            Types::Dictionary(d) => {
+                tref_positions(&d.key_type, format!("{}.k", path), out, depth + 1);
+                tref_positions(&d.value_type, format!("{}.v", path), out, depth + 1);
+            }
+            Types::ResultType(r) => {
+                tref_positions(&r.success_type, format!("{}.s", path), out, depth + 1);
+                tref_positions(&r.failure_type, format!("{}.f", path), out, depth + 1);
+            }
+            _ => {}
+        }
+    }
+}
+
+/// index of a file by position: element address → path, and the number of positions (incl. type references)
+struct Index { elems: HashMap<usize, String>, positions: usize }
+
+impl Index {
+    fn put<T: ?Sized>(&mut self, x: &T, path: String) { self.elems.insert(addr(x), path); self.positions += 1; }
+    fn owner<T: ?Sized>(&mut self, x: &T, path: String, t: &TypeRef) {
+        let mut v = vec![];
+        tref_positions(t, format!("{}.t", path), &mut v, 0);
+        self.positions += v.len();
+        self.put(x, path);
+    }
+    fn build(f: &SliceFile) -> Index {
+        let mut ix = Index { elems: HashMap::new(), positions: 0 };
+        ix.put(f, "file".into());
+        if let Some(m) = &f.module { ix.put(m.borrow(), "mod".into()); }
+        for (j, d) in f.contents.iter().enumerate() {
+            let p = format!("d{}", j);
+            match d {
+                Definition::Struct(x) => { let s = x.borrow(); ix.put(s, p.clone());
+                    for (k, fl) in s.fields().iter().enumerate() { ix.owner(*fl, format!("{}.f{}", p, k), &fl.data_type); } }
+                Definition::Interface(x) => { let s = x.borrow(); ix.put(s, p.clone());
+                    for (k, o) in s.operations().iter().enumerate() { let op = format!("{}.o{}", p, k); ix.put(*o, op.clone());
+                        for (m, pa) in o.parameters().iter().enumerate() { ix.owner(*pa, format!("{}.p{}", op, m), &pa.data_type); }
+                        for (m, pa) in o.return_members().iter().enumerate() { ix.owner(*pa, format!("{}.r{}", op, m), &pa.data_type); } } }
+                Definition::Enum(x) => { let s = x.borrow(); ix.put(s, p.clone());
+                    for (k, e) in s.enumerators().iter().enumerate() { let ep = format!("{}.e{}", p, k); ix.put(*e, ep.clone());
+                        if e.fields.is_some() { for (m, fl) in e.fields().iter().enumerate() { ix.owner(*fl, format!("{}.f{}", ep, m), &fl.data_type); } } } }
+                Definition::CustomType(x) => { ix.put(x.borrow(), p.clone()); }
+                Definition::TypeAlias(x) => { let s = x.borrow(); ix.owner(s, p.clone(), &s.underlying); }
+            }
+        }
+        ix
+    }
+}
+
+struct PathRecorder<'a> {
+    index: &'a Index,
+    own_file: String,
+    /// positions of the type references of the most recent owner: (address, path, already presented)
+    current: Vec<(usize, String, bool)>,
+    kinds: Vec<&'static str>,
+    paths: Vec<String>,
+    events: Vec<String>,
+}
+
+impl PathRecorder<'_> {
+    fn elem<T: ?Sized>(&mut self, kind: &'static str, x: &T) -> String {
+        let p = self.index.elems.get(&addr(x)).cloned().unwrap_or_else(|| "?".to_string());
+        self.current.clear();
+        self.kinds.push(kind); self.paths.push(p.clone()); self.events.push(format!("{}:{}", kind, p));
+        p
+    }
+    fn owner<T: ?Sized>(&mut self, kind: &'static str, x: &T, t: &TypeRef) {
+        let p = self.elem(kind, x);
+        let mut v = vec![];
+        tref_positions(t, format!("{}.t", p), &mut v, 0);
+        self.current = v;
+    }
+}
+
+impl Visitor for PathRecorder<'_> {
+    fn visit_file(&mut self, f: &SliceFile) { self.elem("file", f); }
+    fn visit_module(&mut self, m: &Module) { self.elem("module", m); }
+    fn visit_struct(&mut self, x: &Struct) { self.elem("struct", x); }
+    fn visit_interface(&mut self, x: &Interface) { self.elem("interface", x); }
+    fn visit_enum(&mut self, x: &Enum) { self.elem("enum", x); }
+    fn visit_operation(&mut self, x: &Operation) { self.elem("operation", x); }
+    fn visit_custom_type(&mut self, x: &CustomType) { self.elem("custom", x); }
+    fn visit_type_alias(&mut self, x: &TypeAlias) { self.owner("alias", x, &x.underlying); }
+    fn visit_field(&mut self, x: &Field) { self.owner("field", x, &x.data_type); }
+    fn visit_parameter(&mut self, x: &Parameter) { self.owner("parameter", x, &x.data_type); }
+    fn visit_enumerator(&mut self, x: &Enumerator) { self.elem("enumerator", x); }
+    fn visit_type_ref(&mut self, x: &TypeRef) {
+        let a = addr(x);
+        let p = match self.current.iter_mut().find(|e| e.0 == a && !e.2) {
+            Some(e) => { e.2 = true; e.1.clone() }
+            None => "?".to_string(),
+        };
+        let whose = if x.span.file == self.own_file { "own" } else { "other" };
+        self.kinds.push("typeref"); self.paths.push(p.clone()); self.events.push(format!("typeref:{}@{}", p, whose));
+    }
+}
+
+fn is_owner(kind: &str) -> bool { kind == "field" || kind == "parameter" || kind == "alias" }
+
+/// the property's own predicate on the recorded walk of one file
+fn oracle(file: usize, index: &Index, r: &PathRecorder) -> Option<String> {
+    let mut seen = HashSet::new();
+    for p in &r.paths {
+        if p == "?" { return Some(format!("file {}: a callback presented an element that is not at any position of the walked file", file)); }
+        if !seen.insert(p.as_str()) { return Some(format!("file {}: {} presented twice", file, p)); }
+    }
+    for i in 0..r.paths.len() {
+        if is_owner(r.kinds[i]) {
+            let want = format!("{}.t", r.paths[i]);
+            if r.paths.get(i + 1) != Some(&want) || r.kinds[i + 1] != "typeref" { return Some(format!("file {}: {} is not directly followed by its type", file, r.paths[i])); }
+        }
+        if r.paths[i].ends_with(".t") {
+            let ok = i > 0 && is_owner(r.kinds[i - 1]) && format!("{}.t", r.paths[i - 1]) == r.paths[i];
+            if !ok { return Some(format!("file {}: {} does not directly follow its owner", file, r.paths[i])); }
+        }
+    }
+    if r.paths.len() != index.positions { return Some(format!("file {}: {} callbacks for {} positions", file, r.paths.len(), index.positions)); }
+    None
+}
+
+fn walk_files(state: &CompilationState) -> (String, String) {
+    let mut per_file = vec![];
+    let mut verdict: Option<String> = None;
+    for (i, f) in state.files.iter().enumerate() {
+        let index = Index::build(f);
+        let mut r = PathRecorder { index: &index, own_file: f.relative_path.clone(), current: vec![], kinds: vec![], paths: vec![], events: vec![] };
+        f.visit_with(&mut r);
+        if verdict.is_none() { verdict = oracle(i, &index, &r); }
+        per_file.push(r.events.join(","));
+    }
+    (per_file.join("|"), verdict.map_or("ok".to_string(), |v| format!("FAIL({})", v)))
+}
 
 pub fn project(state: CompilationState, options: SliceOptions, name: &str) -> String {
-    let _ = (&state, &options);
-    format!("unknown-projection:c20:{}", name)
+    match name {
+        "events" => {
+            let (events, verdict) = walk_files(&state);
+            let diags = state.diagnostics.into_updated(&state.ast, &state.files, &options);
+            format!("{} diags={} oracle={}", events, codes(&diags), verdict)
+        }
+        "walk" => {
+            let (events, verdict) = walk_files(&state);
+            format!("{} oracle={}", events, verdict)
+        }
+        _ => format!("unknown-projection:c20:{}", name),
+    }
 }
